@@ -90,15 +90,21 @@ func IPv4(r *prng.R, o FrameOpt) *rec.Rec {
 
 func hbh(r *prng.R, next uint8) *rec.Rec {
 	hel := r.Pick(0, 0, 1, 2, 3)
+	if r.Chance(1, 12) { // long headers: the size 8*(HEL+1) no longer fits in 8 bits
+		hel = r.Pick(30, 31, 32, 63, 64, 128, 255)
+	}
 	h := rec.New("hbh").Set("next_header", uint64(next)).Set("hel", uint64(hel)).SetL("options", nil)
 	left := 8*(hel+1) - 2
 	for left > 0 {
 		// option = 2 + d bytes; never leave exactly 1 byte (that would need a Pad1 option)
 		d := r.Intn(left - 1)
+		if d > 253 {
+			d = 253
+		}
 		if left-2-d == 1 {
 			d++
 		}
-		if r.Chance(1, 3) {
+		if r.Chance(1, 3) && left-2 <= 255 {
 			d = left - 2
 		}
 		h.Add("options", rec.New("ip6opt").Set("type", uint64(1+r.Intn(255))).SetB("data", r.Bytes(d)))
@@ -109,6 +115,9 @@ func hbh(r *prng.R, next uint8) *rec.Rec {
 
 func routing(r *prng.R, next uint8) *rec.Rec {
 	hel := r.Pick(0, 0, 1, 2, 4)
+	if r.Chance(1, 12) { // long headers (segment lists): the size 8*(HEL+1) no longer fits in 8 bits
+		hel = r.Pick(30, 31, 32, 63, 64, 128, 255)
+	}
 	return rec.New("routing").Set("next_header", uint64(next)).Set("hel", uint64(hel)).Set("type", r.Bits(8)).Set("segments_left", r.Bits(8)).SetB("data", r.Bytes(8*(hel+1)-4))
 }
 
